@@ -1,0 +1,220 @@
+//go:build verif
+
+package scorch
+
+import (
+	"path/filepath"
+	"sort"
+
+	"github.com/blevesearch/bleve/v2/util"
+	segment "github.com/blevesearch/scorch_segment_api/v2"
+)
+
+// VerifHook, when set (before an index is opened), is called at every
+// instrumented point of the scorch engine. It may block (gate) or record.
+// Only compiled with the verif build tag.
+var VerifHook func(point string, s *Scorch, args ...interface{})
+
+func verifHook(point string, s *Scorch, args ...interface{}) {
+	if h := VerifHook; h != nil {
+		h(point, s, args...)
+	}
+}
+
+// VerifSeg summarises one segment of a snapshot.
+type VerifSeg struct {
+	ID      uint64 `json:"id"`
+	Count   uint64 `json:"count"`   // documents physically in the segment
+	Deleted uint64 `json:"deleted"` // cardinality of the deleted bitmap
+	File    string `json:"file"`    // base name of the zap file, "" if in memory
+}
+
+// VerifSnap summarises an index snapshot.
+type VerifSnap struct {
+	Epoch    uint64            `json:"epoch"`
+	Segs     []VerifSeg        `json:"segs"`
+	Internal map[string]string `json:"internal"`
+}
+
+// VerifSnapshot summarises a snapshot (immutable once published; no lock needed).
+func VerifSnapshot(is *IndexSnapshot) VerifSnap {
+	rv := VerifSnap{Internal: map[string]string{}}
+	if is == nil {
+		return rv
+	}
+	rv.Epoch = is.epoch
+	for _, ss := range is.segment {
+		vs := VerifSeg{ID: ss.id, Count: ss.segment.Count()}
+		if ss.deleted != nil {
+			vs.Deleted = ss.deleted.GetCardinality()
+		}
+		if ps, ok := ss.segment.(segment.PersistedSegment); ok {
+			vs.File = filepath.Base(ps.Path())
+		}
+		rv.Segs = append(rv.Segs, vs)
+	}
+	for k, v := range is.internal {
+		rv.Internal[k] = string(v)
+	}
+	return rv
+}
+
+// VerifMerge describes a merge introduction request.
+type VerifMerge struct {
+	NewIDs    []uint64 `json:"new_ids"`
+	NewFiles  []string `json:"new_files"`
+	Inputs    []uint64 `json:"inputs"` // ids of the segments being replaced
+	InputTask []int    `json:"input_task"`
+	FileMerge bool     `json:"file_merge"`
+}
+
+func VerifMergeInfo(sm *segmentMerge) VerifMerge {
+	rv := VerifMerge{FileMerge: sm.fileMerge}
+	for i, id := range sm.newSegmentIDs {
+		rv.NewIDs = append(rv.NewIDs, id)
+		f := ""
+		if sm.newSegments[i] != nil {
+			if ps, ok := sm.newSegments[i].(segment.PersistedSegment); ok {
+				f = filepath.Base(ps.Path())
+			}
+		}
+		rv.NewFiles = append(rv.NewFiles, f)
+	}
+	ids := make([]uint64, 0, len(sm.mergedSegHistory))
+	for id := range sm.mergedSegHistory {
+		ids = append(ids, id)
+	}
+	sort.Slice(ids, func(i, j int) bool { return ids[i] < ids[j] })
+	for _, id := range ids {
+		rv.Inputs = append(rv.Inputs, id)
+		rv.InputTask = append(rv.InputTask, sm.mergedSegHistory[id].batchID)
+	}
+	return rv
+}
+
+// VerifState is the removal-eligibility bookkeeping of the index.
+type VerifState struct {
+	RootEpoch     uint64         `json:"root_epoch"`
+	Ineligible    []string       `json:"ineligible"`
+	Eligible      []uint64       `json:"eligible"`
+	CopyScheduled map[string]int `json:"copy_scheduled"`
+}
+
+// VerifStateLocked reads the bookkeeping; the caller must hold rootLock
+// (hooks fired inside a rootLock section) or know no writer is active.
+func (s *Scorch) VerifStateLocked() VerifState {
+	rv := VerifState{CopyScheduled: map[string]int{}}
+	if s.root != nil {
+		rv.RootEpoch = s.root.epoch
+	}
+	for f, ok := range s.ineligibleForRemoval {
+		if ok {
+			rv.Ineligible = append(rv.Ineligible, f)
+		}
+	}
+	sort.Strings(rv.Ineligible)
+	rv.Eligible = append(rv.Eligible, s.eligibleForRemoval...)
+	for f, n := range s.copyScheduled {
+		rv.CopyScheduled[f] = n
+	}
+	return rv
+}
+
+// VerifStateNow takes rootLock (shared) and reads the bookkeeping.
+func (s *Scorch) VerifStateNow() VerifState {
+	s.rootLock.RLock()
+	defer s.rootLock.RUnlock()
+	return s.VerifStateLocked()
+}
+
+// VerifPath returns the index directory.
+func (s *Scorch) VerifPath() string { return s.path }
+
+// VerifBoltFiles returns, per persisted epoch, the zap file names the bolt
+// snapshot names (read in one bolt read transaction).
+func (s *Scorch) VerifBoltFiles() (map[uint64][]string, error) {
+	rv := map[uint64][]string{}
+	if s.rootBolt == nil {
+		return rv, nil
+	}
+	err := s.rootBolt.View(func(tx *util.BoltTxImpl) error {
+		snapshots := tx.Bucket(util.BoltSnapshotsBucket)
+		if snapshots == nil {
+			return nil
+		}
+		sc := snapshots.Cursor()
+		for sk, _ := sc.First(); sk != nil; sk, _ = sc.Next() {
+			_, epoch, err := decodeUvarintAscending(sk)
+			if err != nil {
+				continue
+			}
+			snapshot := snapshots.GetBucket(sk)
+			if snapshot == nil {
+				continue
+			}
+			files := []string{}
+			segc := snapshot.Cursor()
+			for segk, _ := segc.First(); segk != nil; segk, _ = segc.Next() {
+				if segk[0] == util.BoltInternalKey[0] || segk[0] == util.BoltMetaDataKey[0] {
+					continue
+				}
+				segmentBucket := snapshot.GetBucket(segk)
+				if segmentBucket == nil {
+					continue
+				}
+				pathBytes, err := segmentBucket.Get(util.BoltPathKey, nil)
+				if err != nil || pathBytes == nil {
+					continue
+				}
+				files = append(files, string(pathBytes))
+			}
+			sort.Strings(files)
+			rv[epoch] = files
+		}
+		return nil
+	})
+	return rv, err
+}
+
+// VerifIntro describes a batch introduction request.
+type VerifIntro struct {
+	ID       uint64            `json:"id"`
+	IDs      []string          `json:"ids"`
+	Internal map[string]string `json:"internal"` // nil value (delete) rendered as "\x00del"
+	HasData  bool              `json:"has_data"`
+	Safe     bool              `json:"safe"`
+}
+
+func VerifIntroInfo(next *segmentIntroduction) VerifIntro {
+	rv := VerifIntro{ID: next.id, HasData: next.data != nil, Safe: next.persisted != nil, Internal: map[string]string{}}
+	rv.IDs = append(rv.IDs, next.ids...)
+	sort.Strings(rv.IDs)
+	for k, v := range next.internal {
+		if v == nil {
+			rv.Internal[k] = "\x00del"
+		} else {
+			rv.Internal[k] = string(v)
+		}
+	}
+	return rv
+}
+
+// VerifArg converts the unexported argument types passed to VerifHook into
+// their exported summaries (snapshots, introductions, merges); other values
+// are returned unchanged.
+func VerifArg(a interface{}) interface{} {
+	switch x := a.(type) {
+	case *IndexSnapshot:
+		return VerifSnapshot(x)
+	case *segmentIntroduction:
+		return VerifIntroInfo(x)
+	case *segmentMerge:
+		return VerifMergeInfo(x)
+	case error:
+		if x == nil {
+			return nil
+		}
+		return x.Error()
+	}
+	return a
+}
